@@ -465,7 +465,7 @@ func (me *MtreeEntry) WriteTo(w io.Writer) (int64, error) {
 		n, err := fmt.Fprintf(
 			w,
 			"./%s time=%d.0 mode=%o type=dir\n",
-			me.Destination,
+			mtreeQuote(me.Destination),
 			me.Time,
 			me.Mode,
 		)
@@ -474,17 +474,17 @@ func (me *MtreeEntry) WriteTo(w io.Writer) (int64, error) {
 		n, err := fmt.Fprintf(
 			w,
 			"./%s time=%d.0 mode=%o type=link link=%s\n",
-			me.Destination,
+			mtreeQuote(me.Destination),
 			me.Time,
 			me.Mode,
-			me.LinkSource,
+			mtreeQuote(me.LinkSource),
 		)
 		return int64(n), err
 	default:
 		n, err := fmt.Fprintf(
 			w,
 			"./%s time=%d.0 mode=%o size=%d type=file md5digest=%x sha256digest=%x\n",
-			me.Destination,
+			mtreeQuote(me.Destination),
 			me.Time,
 			me.Mode,
 			me.Size,
@@ -493,6 +493,22 @@ func (me *MtreeEntry) WriteTo(w io.Writer) (int64, error) {
 		)
 		return int64(n), err
 	}
+}
+
+// mtreeQuote encodes a path the way mtree(5) requires: whitespace, backslash,
+// '#' and bytes outside printable ASCII are written as backslash-octal
+// escapes, because words in an mtree line are separated by whitespace.
+func mtreeQuote(s string) string {
+	var b strings.Builder
+	for i := 0; i < len(s); i++ {
+		c := s[i]
+		if c <= ' ' || c >= 0x7f || c == '\\' || c == '#' {
+			fmt.Fprintf(&b, "\\%03o", c)
+			continue
+		}
+		b.WriteByte(c)
+	}
+	return b.String()
 }
 
 func createMtree(tw *tar.Writer, entries []MtreeEntry, mtime time.Time) error {
